@@ -337,3 +337,6 @@ def run(ctx: common.Ctx):
     # (Props/C11Graph.lean: roll_graph_correct, flip_graph_correct, expandDims/squeeze/concat_graph_correct, ...)
     from .. import tgraph
     tgraph.run_layout(ctx, 400 if quick else 4000)
+    # tril / triu and broadcast_arrays at graph level (Model/TGraphScatter; Props/C11Trilu.lean, C11Broadcast.lean)
+    from .. import scattertie
+    scattertie.run(ctx, 80 if ctx.tier == "quick" else 1600, label="layout2", kinds=("trilu", "broadcast_arrays"))
